@@ -237,7 +237,7 @@ def oracle_ddp(case: dict) -> Outcome:
 
     out, info = dc.run_case(case, "C09.ddp.world", checkpoint_at=case["k"])
     pb = info.get("pb")
-    if pb is None or out.failures:
+    if pb is None or out.failures or any(r is None for r in info.get("results") or [None]):
         return out
     k = case["k"]
     T = len(pb.steps)
